@@ -11,7 +11,8 @@ import ast
 
 from ..model import src
 from ..report import Report, key_of
-from .common import TRUSTED_BASE, cfg_nodes_for, subst_single_assign, where
+from ..terms import assume, dag_nodes, pretty
+from .common import TRUSTED_BASE, cfg_nodes_for, expanded_facts, loop_unconditional, subst_single_assign, where
 
 
 def _index_key(call: ast.Call) -> bool:
@@ -27,59 +28,133 @@ def _index_key(call: ast.Call) -> bool:
     return False
 
 
+def _is_index_key(k) -> bool:
+    """key term projects element 0 of the pair: lambda p: p[0] / operator.itemgetter(0)"""
+    if k[0] == 'lam' and len(k[1]) == 1 and k[2] == ('index', k[1][0], ('lit', 0)):
+        return True
+    if k[0] == 'call' and k[1].split('.')[-1] == 'itemgetter' and k[2] == (('lit', 0),):
+        return True
+    return False
+
+
+def term_order_problems(t, sort_param):
+    """Taint analysis on the value term of the pooled path.  Source: asyncio.as_completed(...) (completion order).
+    Sanitiser: sorted(<pairs>, key=<element 0>) applied before the pairs of several calls are merged, i.e. with no
+    binder body (a loop / comprehension over chunks) between the source and the sort.  Returns (problems, n_sources)."""
+    problems = []
+    n_src = [0]
+
+    def walk(x, above):
+        # `above`: list of (node, child position) from the root down to x
+        if not isinstance(x, tuple) or not x:
+            return
+        if x[0] == 'call' and isinstance(x[1], str) and x[1].endswith('as_completed'):
+            n_src[0] += 1
+            judge(above)
+            return
+        if x[0] in ('lit', 'p', 'var', 'global', 'opaque'):
+            return
+        for i, c in enumerate(x):
+            if isinstance(c, tuple):
+                if c and isinstance(c[0], str):
+                    walk(c, above + [(x, i)])
+                else:
+                    for j, d in enumerate(c):
+                        if isinstance(d, tuple):
+                            walk(d, above + [(x, i)]) if d and isinstance(d[0], str) else [walk(e, above + [(x, i)]) for e in d if isinstance(e, tuple)]
+
+    def judge(above):
+        crossed_binder = False
+        for node, pos in reversed(above):
+            if node[0] == 'sorted' and pos == 1:
+                if not _is_index_key(node[2]):
+                    problems.append('a sort of the completion-ordered pairs does not use the submission index as key')
+                elif crossed_binder:
+                    problems.append('the index sort is applied to pairs merged from several chunks: results of different chunks interleave')
+                return
+            if (node[0] == 'map' and pos in (2, 4)) or (node[0] == 'mapdict' and pos in (2, 3, 5)):
+                crossed_binder = True
+            if node[0] == 'cond' and sort_param is not None:
+                test = node[1]
+                unsorted_branch = (test == ('p', sort_param) and pos == 3) or (test == ('not', ('p', sort_param)) and pos == 2)
+                if unsorted_branch:
+                    return  # the caller asked for completion order
+        problems.append('completion-ordered results reach the returned list without a sort on the submission index')
+
+    walk(t, [])
+    return sorted(set(problems)), n_src[0]
+
+
 def check_parallel_map(A, R: Report, f):
     name = f'{f.module.name.split(".")[-1]}.parallel_map'
-    frun = f.nested.get('_run')
-    ffun = f.nested.get('_fun')
+    fun_param = f.params[0]
+    scope = [f] + list(f.nested.values())
+    uses_completion = any(isinstance(n, ast.Call) and src(n.func).endswith('as_completed') for g in scope for n in A.typer.own_nodes(g))
+    # --- roles: the coroutine that submits and collects, the worker handed to the executor
+    frun = next((g for g in f.nested.values() if any(isinstance(n, ast.Call) and src(n.func).endswith('run_in_executor') for n in A.typer.own_nodes(g))), None)
+    subs = [n for n in A.typer.own_nodes(frun) if isinstance(n, ast.Call) and src(n.func).endswith('run_in_executor')] if frun is not None else []
+    ffun = None
+    for c in subs:
+        if len(c.args) >= 2 and isinstance(c.args[1], ast.Name) and c.args[1].id in f.nested:
+            ffun = f.nested[c.args[1].id]
     if frun is None or ffun is None:
         # an implementation that never consumes completion order (executor.map) carries no taint
-        uses_completion = any(isinstance(n, ast.Call) and src(n.func).endswith('as_completed') for g in [f] + list(f.nested.values()) for n in A.typer.own_nodes(g))
         if uses_completion:
             R.undecided('R17.1', name, 'completion-ordered collection idiom not recognised', where=where(f))
         else:
             R.ok('R17.1', name, 'no completion-ordered collection', where=where(f))
-        return
-    # --- index tagging
-    rets = [n for n in A.typer.own_nodes(ffun) if isinstance(n, ast.Return)]
-    tag_ok = len(rets) == 1 and isinstance(rets[0].value, ast.Tuple) and len(rets[0].value.elts) == 2 and src(rets[0].value.elts[0]) == ffun.params[0] \
-        and isinstance(rets[0].value.elts[1], ast.Call) and src(rets[0].value.elts[1].func) == f.params[0] and [src(a) for a in rets[0].value.elts[1].args] == [ffun.params[1]]
-    n_fun_calls = sum(1 for n in A.typer.own_nodes(ffun) if isinstance(n, ast.Call) and src(n.func) == f.params[0])
-    tag_ok = tag_ok and n_fun_calls == 1
-    R.check(tag_ok, 'R17.2', f'{name}: _fun', key_of('tag', [src(r) for r in rets]), 'returns (index, fun(arg)); fun called once',
-            'the worker does not return (submission index, fun(arg)) with exactly one call of fun', where=where(ffun))
-    # --- submission: one future per enumerate item
-    subs = [n for n in A.typer.own_nodes(frun) if isinstance(n, (ast.ListComp, ast.GeneratorExp)) and 'run_in_executor' in src(n.elt)]
-    sub_ok = False
-    seq = None
-    for s in subs:
-        g = s.generators[0]
-        if isinstance(g.iter, ast.Call) and src(g.iter.func) == 'enumerate' and not g.ifs and len(s.generators) == 1:
-            seq = src(g.iter.args[0])
-            call = s.elt
-            args = [src(a) for a in call.args]
-            tv = [src(e) for e in g.target.elts] if isinstance(g.target, ast.Tuple) else []
-            sub_ok = len(args) >= 4 and args[1] == ffun.name and args[2:4] == tv
-    R.check(sub_ok, 'R17.2', f'{name}: submission', key_of('submit', [src(s)[:100] for s in subs]), f'one future per element of enumerate({seq})',
-            'elements are not submitted exactly once each with their enumerate index', where=where(frun))
-    handlers = [n for g in (f, frun, ffun) for n in A.typer.own_nodes(g) if isinstance(n, ast.ExceptHandler)]
-    R.check(not handlers, 'R17.2', f'{name}: exceptions', key_of('handlers', len(handlers)), 'no handler between fun and the caller', 'an exception handler can swallow the exception raised by fun', where=where(f))
-    # --- order restoration: a small taint analysis over the two functions
-    completes = [n for n in A.typer.own_nodes(frun) if isinstance(n, ast.Call) and src(n.func).endswith('as_completed')]
-    if not completes:
-        R.ok('R17.1', name, 'results are not collected in completion order', where=where(frun))
+        R.undecided('R17.2', f'{name}: worker', 'pooled submission idiom not recognised', where=where(f))
+        R.undecided('R17.2', f'{name}: submission', 'pooled submission idiom not recognised', where=where(f))
     else:
-        problems = order_problems(A, f, frun)
+        # --- index tagging: the worker returns (its first argument, fun(its second argument))
+        wt = A.sym.func_term(ffun, None)
+        tag_ok = len(ffun.params) == 2 and wt == ('tuple', (('p', ffun.params[0]), ('call', fun_param, (('p', ffun.params[1]),))))
+        n_fun_calls = sum(1 for n in A.typer.own_nodes(ffun) if isinstance(n, ast.Call) and src(n.func) == fun_param)
+        tag_ok = tag_ok and n_fun_calls == 1
+        R.check(tag_ok, 'R17.2', f'{name}: worker', key_of('tag', pretty(wt)[:100]), 'returns (index, fun(arg)); fun called once',
+                'the worker does not return (submission index, fun(arg)) with exactly one call of fun', witness=[pretty(wt)[:200]], where=where(ffun))
+        # --- submission: one future per (index, element) of enumerate(<the input>)
+        comp_args = [n.args[0] for n in A.typer.own_nodes(frun) if isinstance(n, ast.Call) and src(n.func).endswith('as_completed') and n.args]
+        at = A.sym.terms_at(frun, None, comp_args) if comp_args else {}
+        fts = [t for n in comp_args for t in at.get(id(n), [])]
+        sub_ok = bool(fts)
+        seq = None
+        for t in fts:
+            good = t[0] == 'map' and len(t[1]) == 2 and t[4] is None and t[3][0] == 'call' and t[3][1] == 'enumerate' and len(t[3][2]) == 1 \
+                and t[2][0] == 'method' and t[2][2] == 'run_in_executor' and len(t[2][3]) == 4 and t[2][3][1] == ('global', ffun.name) and t[2][3][2:] == (t[1][0], t[1][1])
+            sub_ok = sub_ok and good
+            seq = pretty(t[3][2][0]) if good else seq
+        if comp_args and not fts:
+            R.undecided('R17.2', f'{name}: submission', 'the submitted futures could not be evaluated symbolically', where=where(frun))
+        else:
+            R.check(sub_ok, 'R17.2', f'{name}: submission', key_of('submit', [pretty(t)[:100] for t in fts]), f'one future per element of enumerate({seq})',
+                    'elements are not submitted exactly once each with their enumerate index', witness=[pretty(t)[:200] for t in fts[:1]], where=where(frun))
+    handlers = [n for g in scope for n in A.typer.own_nodes(g) if isinstance(n, ast.ExceptHandler)]
+    R.check(not handlers, 'R17.2', f'{name}: exceptions', key_of('handlers', len(handlers)), 'no handler between fun and the caller', 'an exception handler can swallow the exception raised by fun', where=where(f))
+    # --- value term of the function: sequential shortcut and pooled path
+    ft = A.sym.func_term(f, None)
+    one = ('cmp', 'Eq', ('p', 'threads'), ('lit', 1))
+    seq_t = assume(ft, lambda c: True if c == one else None)
+    pooled_t = assume(ft, lambda c: False if c == one else None)
+    # sequential path: [fun(x) for x in <the input, possibly wrapped by a progress bar>]
+    ok_seq = seq_t != ft and seq_t[0] == 'map' and len(seq_t[1]) == 1 and seq_t[4] is None and seq_t[2] in (('call', 'apply', (('p', fun_param), seq_t[1][0])), ('call', fun_param, (seq_t[1][0],))) \
+        and ('p', f.params[1]) in dag_nodes(seq_t[3])
+    R.check(ok_seq, 'R17.2', f'{name}: sequential path', key_of('sequential', pretty(seq_t)[:100]), '[fun(x) for x in iterable] when threads == 1', 'the sequential shortcut is not a plain map over every element',
+            witness=[pretty(seq_t)[:200]], where=where(f))
+    # --- order restoration
+    if not uses_completion:
+        R.ok('R17.1', name, 'results are not collected in completion order', where=where(f))
+        return
+    sort_param = 'sort' if 'sort' in f.params else None
+    problems, n_src = term_order_problems(pooled_t, sort_param)
+    if n_src == 0:
+        # the term engine lost the flow (uninterpreted construct): fall back to the syntactic taint analysis
+        problems = order_problems(A, f, frun) if frun is not None else None
         if problems is None:
             R.undecided('R17.1', name, 'order-restoration idiom not recognised', where=where(f))
-        else:
-            R.check(not problems, 'R17.1', f'{name}: order restoration', key_of('order', sorted(set(problems))), 'completion order is undone by a sort on the submission index within its scope',
-                    '; '.join(sorted(set(problems))), where=where(f))
-    # sequential shortcut
-    seqs = [n for n in A.typer.own_nodes(f) if isinstance(n, ast.Return) and isinstance(n.value, ast.ListComp) and isinstance(n.value.elt, ast.Call) and src(n.value.elt.func) == f.params[0]]
-    ok = bool(seqs) and all(len(s.value.generators) == 1 and not s.value.generators[0].ifs and [src(x) for x in s.value.elt.args] == [src(s.value.generators[0].target)] for s in seqs)
-    cfg = A.cfg(f)
-    guarded = all(any(src(a_) == 'threads == 1' and pol for cn in cfg_nodes_for(cfg, s) for a_, pol in cfg.facts_at(cn.id)) for s in seqs)
-    R.check(ok and guarded, 'R17.2', f'{name}: sequential path', key_of('sequential', ok, guarded), '[fun(x) for x in iterable] when threads == 1', 'the sequential shortcut is not a plain map over every element', where=where(f))
+            return
+    R.check(not problems, 'R17.1', f'{name}: order restoration', key_of('order', sorted(set(problems))), 'completion order is undone by a sort on the submission index within its scope',
+            '; '.join(sorted(set(problems))), witness=[pretty(pooled_t)[:400]], where=where(f))
 
 
 def order_problems(A, f, frun):
@@ -201,51 +276,91 @@ def run(A, R: Report, thorough: bool):
     R.rule('R17.3', 'chunked yields a chunk exactly when it holds chunksize items, then starts a NEW list and resets the counter; the tail is yielded iff non-empty', floor=1)
     fc = A.func('chunked')
     size = fc.params[1]
-    loops = [n for n in fc.node.body if isinstance(n, ast.For)]
-    if not loops:
+    cfg = A.cfg(fc)
+    loops = [n for n in A.typer.own_nodes(fc) if isinstance(n, ast.For) and src(n.iter) == fc.params[0] and isinstance(n.target, ast.Name)]
+    if len(loops) != 1:
         R.undecided('R17.3', 'chunked', 'chunking idiom not recognised', where=where(fc))
         return
     lp = loops[0]
     problems = []
-    appends = [n for n in lp.body if isinstance(n, ast.Expr) and isinstance(n.value, ast.Call) and isinstance(n.value.func, ast.Attribute) and n.value.func.attr == 'append']
-    incs = [n for n in lp.body if isinstance(n, ast.AugAssign) and isinstance(n.op, ast.Add) and isinstance(n.value, ast.Constant) and n.value.value == 1]
-    if len(appends) != 1 or [src(a) for a in appends[0].value.args] != [src(lp.target)]:
+    inside = {id(x) for x in ast.walk(lp)}
+    appends = [n for n in ast.walk(lp) if isinstance(n, ast.Call) and isinstance(n.func, ast.Attribute) and n.func.attr == 'append' and isinstance(n.func.value, ast.Name)]
+    lst = appends[0].func.value.id if appends else None
+    if len(appends) != 1 or [src(a_) for a_ in appends[0].args] != [lp.target.id] or not loop_unconditional(cfg, lp, appends[0]):
         problems.append('not exactly one append of the current element per iteration')
-    lst = src(appends[0].value.func.value) if appends else None
-    use_len = False
-    yields = [n for n in lp.body if isinstance(n, ast.If) and any(isinstance(x, ast.Yield) for s in n.body for x in ast.walk(s))]
-    if len(yields) != 1:
+    incs = [n for n in ast.walk(lp) if isinstance(n, ast.AugAssign) and isinstance(n.op, ast.Add) and isinstance(n.value, ast.Constant) and n.value.value == 1 and isinstance(n.target, ast.Name)]
+    cnt = incs[0].target.id if incs else None
+    yields = [n for n in A.typer.own_nodes(fc) if isinstance(n, ast.Yield)]
+    in_loop = [y for y in yields if id(y) in inside]
+    tail = [y for y in yields if id(y) not in inside]
+
+    def is_size_test(a_, pol):
+        # "<count> == chunksize" (or >=) holds, where <count> is the counter or len(<list>)
+        if not (isinstance(a_, ast.Compare) and len(a_.ops) == 1):
+            return None
+        l, r = subst_single_assign(A, fc, a_.left), subst_single_assign(A, fc, a_.comparators[0])
+        op = a_.ops[0]
+        if src(r) != size and src(l) == size:
+            l, r = r, l
+            op = {ast.Lt: ast.Gt(), ast.Gt: ast.Lt(), ast.LtE: ast.GtE(), ast.GtE: ast.LtE()}.get(type(op), op)
+        if src(r) != size:
+            return None
+        good = (isinstance(op, (ast.Eq, ast.GtE)) and pol) or (isinstance(op, (ast.NotEq, ast.Lt)) and not pol)
+        if not good:
+            return None
+        if cnt is not None and src(l) == cnt:
+            return 'counter'
+        if lst is not None and src(l) == f'len({lst})':
+            return 'len'
+        return None
+
+    if len(in_loop) != 1:
         problems.append('in-loop yield not found (or more than one)')
     else:
-        y = yields[0]
-        t = src(y.test)
-        cnt = src(incs[0].target) if incs else None
-        if cnt and t in (f'{cnt} == {size}', f'{cnt} >= {size}', f'{size} == {cnt}'):
-            if len(incs) != 1:
+        y = in_loop[0]
+        kinds = {is_size_test(a_, pol) for cn in cfg_nodes_for(cfg, y) for a_, pol in expanded_facts(A, fc, cfg, cn.id)} - {None}
+        if not kinds:
+            facts = [(src(a_), pol) for cn in cfg_nodes_for(cfg, y) for a_, pol in cfg.facts_at(cn.id)]
+            problems.append(f'yield condition `{facts}` is not "chunk holds chunksize items"')
+        if 'counter' in kinds and 'len' not in kinds:
+            if len(incs) != 1 or not loop_unconditional(cfg, lp, incs[0]):
                 problems.append('counter is not incremented exactly once per element')
-        elif lst and t in (f'len({lst}) == {size}', f'len({lst}) >= {size}'):
-            use_len = True
-        else:
-            problems.append(f'yield condition `{t}` is not "chunk holds chunksize items"')
-        yv = [x for s in y.body for x in ast.walk(s) if isinstance(x, ast.Yield)]
-        if not (yv and yv[0].value is not None and src(yv[0].value) == lst):
+        if not (y.value is not None and src(y.value) == lst):
             problems.append('the yielded value is not the collected chunk')
-        fresh = [s for s in y.body if isinstance(s, ast.Assign) and src(s.targets[0]) == lst and isinstance(s.value, ast.List) and not s.value.elts]
-        if not fresh:
+        ynodes = [cn.id for cn in cfg_nodes_for(cfg, y)]
+        heads = [n.id for n in cfg.nodes.values() if n.kind == 'for' and n.ast is lp]
+        allnodes = list(cfg.nodes)
+        fresh = [n for n in ast.walk(lp) if isinstance(n, ast.Assign) and len(n.targets) == 1 and src(n.targets[0]) == lst and
+                 ((isinstance(n.value, ast.List) and not n.value.elts) or (isinstance(n.value, ast.Call) and src(n.value.func) == 'list' and not n.value.args))]
+        fnodes = [cn.id for n in fresh for cn in cfg_nodes_for(cfg, n)]
+        if not fnodes or cfg.find_path(ynodes, heads, avoid=fnodes, no_exc_from=allnodes) is not None:
             problems.append('after yielding, the same list object is reused (cleared in place): a consumer still holding the previous chunk sees it emptied / overwritten')
-        if not use_len and cnt:
-            reset = [s for s in y.body if isinstance(s, ast.Assign) and src(s.targets[0]) == cnt and isinstance(s.value, ast.Constant) and s.value.value == 0]
-            if not reset:
+        if 'counter' in kinds and 'len' not in kinds:
+            resets = [n for n in ast.walk(lp) if isinstance(n, ast.Assign) and len(n.targets) == 1 and src(n.targets[0]) == cnt and isinstance(n.value, ast.Constant) and n.value.value == 0]
+            rnodes = [cn.id for n in resets for cn in cfg_nodes_for(cfg, n)]
+            if not rnodes or cfg.find_path(ynodes, heads, avoid=rnodes, no_exc_from=allnodes) is not None:
                 problems.append('counter not reset with the list')
-        # the append must precede the test
-        if appends and lp.body.index(appends[0]) > lp.body.index(y):
+        # the append must precede the size test: it dominates the yield
+        anodes = [cn.id for a_ in appends for cn in cfg_nodes_for(cfg, a_)]
+        if anodes and cfg.find_path([h for hd in heads for h in cfg.succ_by_label(hd, 'loop')], ynodes, avoid=anodes, no_exc_from=allnodes) is not None:
             problems.append('element appended after the size test')
-    tail = [n for n in fc.node.body if isinstance(n, ast.If) and any(isinstance(x, ast.Yield) for s in n.body for x in ast.walk(s))]
     if len(tail) != 1:
         problems.append('trailing yield missing')
     else:
-        tt = src(tail[0].test)
-        cnt = src(incs[0].target) if incs else None
-        if tt not in ((f'{cnt} > 0' if cnt else ''), lst, f'len({lst}) > 0', f'{lst} != []', (f'{cnt}' if cnt else '')):
-            problems.append(f'trailing yield guarded by `{tt}`, not by "chunk non-empty"')
-    R.check(not problems, 'R17.3', 'chunked', key_of('chunked', sorted(problems)), 'counter idiom well-formed', '; '.join(problems), where=where(fc))
+        ty = tail[0]
+        nonempty = False
+        shown = []
+        for cn in cfg_nodes_for(cfg, ty):
+            for a_, pol in expanded_facts(A, fc, cfg, cn.id):
+                e = subst_single_assign(A, fc, a_)
+                t_ = src(e)
+                shown.append((t_, pol))
+                if pol and t_ in (lst, f'len({lst})', f'len({lst}) > 0', f'{lst} != []', f'len({lst}) != 0', f'len({lst}) >= 1') + ((cnt, f'{cnt} > 0', f'{cnt} != 0', f'{cnt} >= 1') if cnt else ()):
+                    nonempty = True
+                if not pol and t_ in (f'not {lst}', f'len({lst}) == 0', f'{lst} == []') + ((f'{cnt} == 0',) if cnt else ()):
+                    nonempty = True
+        if not nonempty:
+            problems.append(f'trailing yield guarded by `{shown}`, not by "chunk non-empty"')
+        if not (ty.value is not None and src(ty.value) == lst):
+            problems.append('the trailing yield does not yield the collected chunk')
+    R.check(not problems, 'R17.3', 'chunked', key_of('chunked', sorted(problems)), 'chunking idiom well-formed', '; '.join(problems), where=where(fc))
